@@ -275,8 +275,9 @@ fn strip_strings(t: &str) -> String {
 
 pub fn gen_string(rng: &mut Rng) -> String {
     let mut s = String::new();
+    // mostly short; sometimes just around the inline/heap switch (16 bytes); rarely long
     let m = if rng.chance(1, 10) { 20 } else { 5 };
-    let n = if rng.chance(1, 6) { 0 } else { rng.range(1, m) };
+    let n = if rng.chance(1, 6) { 0 } else if rng.chance(1, 40) { rng.range(12, 22) } else if rng.chance(1, 150) { rng.range(60, 300) } else { rng.range(1, m) };
     for _ in 0..n {
         match rng.below(10) {
             0 => s.push(*rng.pick(&['"', '\\', '/', '\u{8}', '\u{9}', '\u{a}', '\u{c}', '\u{d}'])),
@@ -305,14 +306,16 @@ pub fn gen_value(rng: &mut Rng, depth: usize, max_depth: usize) -> Value {
             _ => Value::String(gen_string(rng).as_str().into()),
         }
     } else if rng.chance(1, 2) {
-        let n = rng.below(5);
-        Value::Array((0..n).map(|_| gen_value(rng, depth + 1, max_depth)).collect())
+        // wide containers now and then: sorting, hashing and buffer strategies switch with the size
+        let n = if rng.chance(1, 30) && depth + 1 >= max_depth.min(2) { rng.range(17, 70) } else { rng.below(5) };
+        Value::Array((0..n).map(|_| gen_value(rng, (depth + 1).max(if n > 5 { max_depth } else { 0 }), max_depth)).collect())
     } else {
-        let n = rng.below(5);
+        let wide = rng.chance(1, 30);
+        let n = if wide { rng.range(17, 70) } else { rng.below(5) };
         let mut o = json_syntax::Object::new();
-        for _ in 0..n {
-            let k = if rng.chance(1, 2) { rng.pick(&["a", "b", "", "a"]).to_string() } else { gen_string(rng) };
-            o.push(k.as_str().into(), gen_value(rng, depth + 1, max_depth));
+        for i in 0..n {
+            let k = if wide && !rng.chance(1, 6) { format!("{}{}", rng.pick(&["k", "key-", "é", ""]), (i * 7) % 41) } else if rng.chance(1, 2) { rng.pick(&["a", "b", "", "a"]).to_string() } else { gen_string(rng) };
+            o.push(k.as_str().into(), gen_value(rng, if wide { max_depth } else { depth + 1 }, max_depth));
         }
         Value::Object(o)
     }
@@ -410,6 +413,30 @@ pub fn gen(out: &mut Out, thorough: bool, focus: &str) {
         }
     }
     out.exhaustive.push("option grid on a fixed nested value: each numeric field 0..3 x 14 limit variants; width thresholds 0..44 x 5 indent units".into());
+    // one character that needs (or almost needs) escaping at EVERY offset of strings of every length up
+    // to 40 (and around 64/128), the rest plain — word-at-a-time scanners and chunked writers have
+    // their lane and chunk boundaries there; also with a 2-byte filler, and in key position
+    {
+        let specials = ['"', '\\', '\n', '\u{1f}', '\u{7f}', '\u{0}', 'é', '\u{2028}', '😀'];
+        let mut n = 0u64;
+        let lens: Vec<usize> = (1..=40).chain([47, 48, 49, 63, 64, 65, 127, 128, 129]).collect();
+        for &len in &lens {
+            for pos in 0..len {
+                if len > 40 && !(pos < 2 || pos + 2 >= len || pos % 16 >= 14 || pos % 16 <= 1) { continue; }
+                for (si, sp) in specials.iter().enumerate() {
+                    if len > 24 && si > 2 && (pos + si) % 3 != 0 { continue; }
+                    let mut cps_s = Vec::with_capacity(len);
+                    for i in 0..len { cps_s.push(if i == pos { format!("{:x}", *sp as u32) } else if (len + si) % 5 == 0 && i % 7 == 3 { "e9".to_string() } else { "61".to_string() }); }
+                    let text = cps_s.join(".");
+                    l(format!("print compact s{};", text), out);
+                    if (pos + len) % 4 == 0 { l(format!("print compact {{k{};[s{};]}}", text, text), out); n += 1; }
+                    n += 1;
+                }
+            }
+        }
+        out.count_n("stream_special_at_every_offset", n);
+        out.exhaustive.push("strings of every length 1..40 (and 47..49, 63..65, 127..129) with one of 9 special characters at every offset (quote, backslash, LF, U+001F, DEL, NUL, é, U+2028, non-BMP), plain otherwise; value and key position".into());
+    }
     // deep expanded chains x indent units, and large padding values: indentation and padding are
     // written by loops/chunks whose size boundaries (16, 32, 64, …) a shallow value never reaches
     {
